@@ -17,6 +17,10 @@ DEF_LEAF3 = ('Cmd(%s, << Grp("{", << Cmd(%s, <<>>) >>, <<>>), Grp("{", << Cmd(%s
              % (S('newcommand'), S('nm'), S('fbox'), S('begin'), S('e'), S('#1'), S('end'), S('e')))
 
 
+DEF_LEAF4 = ('Cmd(%s, << Grp("{", << Cmd(%s, <<>>) >>, <<>>), Grp("{", << Cmd(%s, << Grp("{", << T(%s) >>, <<>>) >>) >>, <<>>) >>)'
+             % (S('providecommand*'), S('nm'), S('end'), S('e')))
+
+
 def leaf_cmd(name, *groups):
     """a complete command leaf: groups = ('{', 'text') / ('[', 'text')"""
     gs = ', '.join('Grp("%s", << T(%s) >>, <<>>)' % (k, S(t)) for k, t in groups)
@@ -125,6 +129,9 @@ def observe_doc(src, skip=()):
         toks = []
         _text_tokens(soup.expr, toks)
         o['texts'] = toks
+        nodes = []
+        _text_nodes(soup.expr, nodes)
+        o['text_nodes'] = nodes
         return soup, o
     oc, v = obs.guarded(run)
     if oc != 'ok':
@@ -147,6 +154,19 @@ def _text_tokens(expr, out):
             _text_tokens(x, out)
         elif isinstance(x, str):
             out.append([getattr(x, 'position', -1), str(x)])
+
+
+def _text_nodes(expr, out):
+    """[position of the text NODE, position of its token, text] for every text node of the tree"""
+    from TexSoup.data import TexExpr, TexText
+    for a in expr.args:
+        if isinstance(a, TexExpr):
+            _text_nodes(a, out)
+    for x in expr._contents:
+        if isinstance(x, TexText):
+            out.append([x.position, getattr(x._text, 'position', -1), str(x)])
+        elif isinstance(x, TexExpr):
+            _text_nodes(x, out)
 
 
 def corpus_docs():
